@@ -404,6 +404,60 @@ def check_raw(case, ctx):
     ctx.nt(judged)
 
 
+# ---------------------------------------------------------------- large files
+@st.composite
+def large_cases(draw):
+    return dict(nr=draw(st.sampled_from([2, 3, 150, 400])), nc=draw(st.sampled_from([2, 5, 260, 700])), seed=draw(st.integers(0, 10**6)), dtype=draw(st.sampled_from(["float64", "float32"])),
+                blanks=draw(st.sampled_from([0, 0, 25])), fault=draw(st.sampled_from([None, None, "drop_value", "extra_value", "zmax"])), wide=draw(st.booleans()))
+
+
+def check_large(case, ctx):
+    """grids with up to 280 000 values: loaded faithfully; one value missing / one too many / a wrong header maximum is refused"""
+    import io as _io
+
+    rng = np.random.RandomState(case["seed"])  # a pure function of the generated case
+    nr, nc = case["nr"], case["nc"]
+    vals = np.round(rng.uniform(-500, 500, (nr, nc)) * 8) / 8  # dyadic: exactly representable as float32 and as printed decimals
+    if case["wide"]:
+        vals[rng.randint(0, nr), rng.randint(0, nc)] = 262144.0  # a wide dynamic range between the extremes
+    blank = np.zeros((nr, nc), dtype=bool)
+    for _ in range(case["blanks"]):
+        blank[rng.randint(0, nr), rng.randint(0, nc)] = True
+    if blank.all():
+        blank[0, 0] = False
+    zmin, zmax = float(vals[~blank].min()), float(vals[~blank].max())
+    w, e, s, n = 1000.0, 1000.0 + 5.0 * max(nc - 1, 1), -200.0, -200.0 + 2.5 * max(nr - 1, 1)
+    rows = [" ".join("1.70141e38" if blank[i, j] else repr(float(vals[i, j])) for j in range(nc)) for i in range(nr)]
+    fault = case["fault"]
+    if fault == "drop_value" and nr * nc > 1:
+        i = rng.randint(0, nr)
+        rows[i] = " ".join(rows[i].split()[:-1])
+    elif fault == "extra_value":
+        i = rng.randint(0, nr)
+        rows[i] = rows[i] + " 7.5"
+    if fault == "zmax":
+        zmax = zmax + max(1.0, 0.01 * abs(zmax))
+    text = "DSAA\n%d %d\n%r %r\n%r %r\n%r %r\n%s\n" % (nr, nc, s, n, w, e, zmin, zmax, "\n".join(rows))  # the header layout load_surfer reads (ASSUMPTIONS)
+    try:
+        grid = vd.load_surfer(_io.StringIO(text), dtype=case["dtype"])
+    except Exception as exc:  # noqa: BLE001
+        if fault is None or (fault == "drop_value" and nr * nc == 1):
+            raise Violation("a well-formed %d x %d file was refused: %s: %s" % (nr, nc, type(exc).__name__, str(exc)[:200]))
+        ctx.label("refused_" + fault)
+        ctx.nt(True)
+        return
+    if fault is not None and not (fault == "drop_value" and nr * nc == 1):
+        raise Violation("a %d x %d file with the fault %r was loaded instead of refused" % (nr, nc, fault))
+    got = np.asarray(grid.values)
+    ctx.check(got.shape == (nr, nc) and got.dtype == np.dtype(case["dtype"]), "loaded shape/dtype %s %s, file has %d rows x %d columns, dtype %s asked", got.shape, got.dtype, nr, nc, case["dtype"])
+    ctx.check(np.array_equal(np.isnan(got), blank), "blanked cells are not exactly the NaNs of the loaded grid")
+    ctx.check(np.array_equal(got[~blank], vals[~blank].astype(case["dtype"])), "loaded values differ from the file's values")
+    ctx.check(np.allclose(grid.easting.values, np.linspace(w, e, nc), rtol=0, atol=1e-9) and np.allclose(grid.northing.values, np.linspace(s, n, nr), rtol=0, atol=1e-9),
+              "coordinates are not evenly spaced over the header's ranges")
+    ctx.label("%dx%d" % (nr, nc), case["dtype"], "blanks" if case["blanks"] else "no_blanks")
+    ctx.nt(nr * nc >= 1000)
+
+
 SUBCHECKS = [
     Sub("wellformed", check_wellformed, strategy=grids(), quick=400, thorough=2500, shards_quick=2,
         doc="grammar-generated files: shape, coordinates, values in file order, blanks, attributes, dtype, path vs file object, handle hygiene"),
@@ -411,6 +465,8 @@ SUBCHECKS = [
         doc="single header corruptions and wrapped/ragged/truncated bodies must be refused; handles closed on the error path"),
     Sub("edited_texts", check_raw, strategy=raw_cases(), quick=500, thorough=3000, shards_quick=2,
         doc="valid files with 1-4 character edits over the numeric alphabet: if load_surfer returns, the grid must equal a strict reading of the text and the header must agree"),
+    Sub("large", check_large, strategy=large_cases(), quick=10, thorough=60, heavy=True,
+        doc="files with up to 280 000 values (blanks, wide dynamic range): faithful load; one value missing/extra or a wrong header maximum is refused"),
 ]
 
 
